@@ -24,7 +24,7 @@ CHECKS = ["the computed potential is valid on every edge (certificate)", "the re
 
 
 def gen_cases(seed, tier, n):
-    return pC08.gen_cases(seed, tier, n)
+    return pC08.gen_cases_shared(seed, tier, n)
 
 
 def _snapshot(g, T=int):
